@@ -11,17 +11,19 @@ pub struct Bound {
 	/// cap on the number of values produced for one composite shape; when the full product would
 	/// exceed it the element alphabet is reduced first (never truncated silently in the middle)
 	pub cap: usize,
+	/// position-coded fills across the 2→4 byte count-prefix boundary (16383/16384/16385 elements)
+	pub big_fills: bool,
 }
 
 impl Bound {
 	pub fn quick() -> Self {
-		Bound { seq_len: 3, full16: true, cap: 20_000 }
+		Bound { seq_len: 3, full16: true, cap: 20_000, big_fills: false }
 	}
 	pub fn thorough() -> Self {
-		Bound { seq_len: 4, full16: true, cap: 200_000 }
+		Bound { seq_len: 4, full16: true, cap: 200_000, big_fills: true }
 	}
 	pub fn small() -> Self {
-		Bound { seq_len: 2, full16: false, cap: 300 }
+		Bound { seq_len: 2, full16: false, cap: 300, big_fills: false }
 	}
 }
 
@@ -500,6 +502,11 @@ fn values_inner(shape: &Shape, b: &Bound, top: bool) -> Vec<Value> {
 				for n in [63usize, 64, 65] {
 					out.push(seq_value(e, (0..n).map(|i| fill(e, i)).collect()));
 				}
+				if b.big_fills {
+					for n in [16383usize, 16384, 16385] {
+						out.push(seq_value(e, (0..n).map(|i| fill(e, i)).collect()));
+					}
+				}
 			}
 			out
 		},
@@ -551,6 +558,10 @@ fn values_inner(shape: &Shape, b: &Bound, top: bool) -> Vec<Value> {
 			v.push(Value::Str("x".repeat(63)));
 			v.push(Value::Str("y".repeat(64)));
 			v.push(Value::Str("\u{7ff}\u{800}\u{ffff}\u{10000}\u{10ffff}".into()));
+			if b.big_fills && top {
+				v.push(Value::Str("z".repeat(16383)));
+				v.push(Value::Str("z".repeat(16384)));
+			}
 			v
 		},
 		Shape::Bytes => {
